@@ -12,6 +12,7 @@ import (
 	"fmt"
 	"go/ast"
 	"go/constant"
+	"go/printer"
 	"go/token"
 	"strings"
 )
@@ -112,5 +113,62 @@ func init() {
 		body = strings.ReplaceAll(body, "v_bgzfExtraPrefix", "c11_bgzfExtraPrefix")
 		fmt.Fprintf(w, "\n(* %s: func expectedMemberSize; h.Extra is the parameter, bytes.Index is abstract *)\n", bg.fset.Position(fd.Pos()))
 		fmt.Fprintf(w, "Definition c11_expectedMemberSize (bytes_index : list Z -> list Z -> Z) (v_Extra : list Z) : outcome (Z) :=\n%s.\n", body)
+	}
+}
+
+// c11Guard translates the boolean guard of Reader.Seek that decides whether the
+// requested block has to be fetched. Leaves are recognised by their source
+// text; anything else aborts the translation.
+func (p *pkgInfo) c11Guard(e ast.Expr, leaves map[string]string) string {
+	switch e := e.(type) {
+	case *ast.ParenExpr:
+		return p.c11Guard(e.X, leaves)
+	case *ast.UnaryExpr:
+		if e.Op == token.NOT {
+			return "(negb " + p.c11Guard(e.X, leaves) + ")"
+		}
+	case *ast.BinaryExpr:
+		x, y := p.c11Guard(e.X, leaves), p.c11Guard(e.Y, leaves)
+		switch e.Op {
+		case token.LOR:
+			return "(" + x + " || " + y + ")"
+		case token.LAND:
+			return "(" + x + " && " + y + ")"
+		case token.NEQ:
+			return "(negb (" + x + " =? " + y + "))"
+		case token.EQL:
+			return "(" + x + " =? " + y + ")"
+		}
+	}
+	var b bytes.Buffer
+	if err := printer.Fprint(&b, p.fset, e); err == nil {
+		if v, ok := leaves[b.String()]; ok {
+			return v
+		}
+	}
+	fatalf("%s: Seek guard: unsupported expression %s", p.dir, b.String())
+	return ""
+}
+
+func init() {
+	emitters["52_c11_bgzf_seek"] = func(w *bytes.Buffer) {
+		bg := load("bgzf")
+		fd := bg.funcDecl("Reader", "Seek")
+		leaves := map[string]string{"off.File": "v_offFile", "bg.current.Base()": "v_base", "bg.current.hasData()": "v_hasData"}
+		for _, st := range fd.Body.List {
+			is, ok := st.(*ast.IfStmt)
+			if !ok {
+				continue
+			}
+			var b bytes.Buffer
+			printer.Fprint(&b, bg.fset, is.Cond)
+			if !strings.Contains(b.String(), "bg.current.Base()") {
+				continue
+			}
+			fmt.Fprintf(w, "\n(* %s: Reader.Seek: `if %s { fetch the block }` *)\n", bg.fset.Position(is.Pos()), b.String())
+			fmt.Fprintf(w, "Definition c11_seek_guard (v_offFile v_base : Z) (v_hasData : bool) : bool :=\n%s.\n", bg.c11Guard(is.Cond, leaves))
+			return
+		}
+		fatalf("bgzf: Reader.Seek: fetch guard not found")
 	}
 }
